@@ -20,7 +20,8 @@ RULE = (
     "[1],[2],[3],[4],[5],[1..5],[5..1]; simplify=True with [1..5],[5..1]} (+ all 120 permutations and order [] on the "
     "permutation sub-grid). Oracle: refine => no box point with Gamma & R & not S; relax => no box point with "
     "Gamma & S & not R and vars(R) disjoint from elim; any exception other than ValueError is a violation. "
-    "quick = complete core (Gamma <= 1 term) + one complete 1/%d slice (VERIF_SEED mod %d) of the thorough space; "
+    "quick = complete core (Gamma <= 1 term), the complete kayk family (two eliminated variables coupled by two context rows "
+    "with coefficients in {-2,-1,1,2}) and the permutation family + one complete 1/%d slice (VERIF_SEED mod %d) of the thorough space; "
     "thorough = whole space. Non-trivial = the returned statistics attribute a tactic > 0 to some term "
     "(a term was actually transformed); distinctness by construction of the duplicate-free enumeration."
     % (NSLICES, NSLICES)
@@ -40,6 +41,11 @@ def _families(tier):
     p_s = [[{"y": 1}, 1], [{"x": 1, "y": 1}, 1], [{"x": 1, "y": -1}, 1], [{"y": 2, "z": 1}, 1], [{"x": 1, "y": 1, "z": -1}, 1]]
     yield ("perm", [[t] for t in p_s], list(grids.lists_upto(g_terms[:16], 1)) + [g_terms[i:i + 2] for i in range(0, 16, 2)],
            [["y"], ["y", "z"]])
+    # Kaykobad / multiplier-sign shapes: two eliminated variables coupled by context rows with coefficients up to 2
+    k_s = [[{"x": cx, "y": cy, "z": cz}, 1] for cx in (0, 1) for cy in (-1, 1) for cz in (-1, 1)]
+    k_s = [[{n: v for n, v in t[0].items() if v}, t[1]] for t in k_s]
+    k_g = [t for t in grids.terms(["y", "z"], [-2, -1, 1, 2], [0])]
+    yield ("kayk", [[t] for t in k_s], list(grids.lists_upto(k_g, 2, minlen=2)), [["y", "z"]])
     yield ("core", [[t] for t in s_terms], list(grids.lists_upto(g_terms, 1)), [["y"], ["y", "z"]])
     yield ("g2", [[t] for t in s_terms], list(grids.lists_upto(g_terms, 2, minlen=2)), [["y"], ["y", "z"]])
     # other constants, other eliminated sets
@@ -72,7 +78,7 @@ def cases(tier, seed):
     sl = seed % NSLICES
     k = 0
     for c in _cases_all():
-        if tier == "thorough" or c["fam"] in ("core", "perm"):
+        if tier == "thorough" or c["fam"] in ("core", "perm", "kayk"):
             yield c
         else:
             k += 1
